@@ -100,8 +100,14 @@ fn stepwise(xot: &mut Xot, tree: &A, order: &[usize], prefer_left: bool, ops_use
         }
         let r = match (left, right) {
             (None, None) => {
-                ops_used.push("append");
-                xot.append(handles[par], handles[i])
+                // first child of a (possibly attribute-carrying) parent: both ways of adding it
+                if prefer_left {
+                    ops_used.push("prepend");
+                    xot.prepend(handles[par], handles[i])
+                } else {
+                    ops_used.push("append");
+                    xot.append(handles[par], handles[i])
+                }
             }
             (Some(l), None) => {
                 if prefer_left {
@@ -270,10 +276,16 @@ fn documents(tier: Tier) -> Vec<A> {
         leaves: vec![A::text("t"), A::comment("c"), A::pi("pi", Some("d"))],
         adjacent_text: false,
     };
+    // declarations that re-establish a shadowed binding, and default-namespace undeclaration
+    let extra = vec![
+        A::doc(vec![A::el(X, "d").decl("p", X).child(A::el(Y, "m").decl("p", Y).child(A::el(X, "x").decl("p", X).child(A::el(X, "y"))))]),
+        A::doc(vec![A::el(X, "d").decl("", X).child(A::el("", "b").decl("", "").child(A::el("", "c")))]),
+        A::doc(vec![A::el(X, "d").decl("", X).child(A::el(Y, "b").decl("", Y).child(A::el(X, "c").decl("", X).child(A::el(X, "e"))))]),
+    ];
     let items = [A::comment("l"), A::pi("x", None)];
     let lead: Vec<Vec<A>> = (0..strings_count(2, 2)).map(|i| nth_string(&items, 2, i)).collect();
     let maxn = tier.pick(5, 6);
-    let mut out = vec![];
+    let mut out = extra;
     for k in 1..=4 {
         for e in element_trees(&al, k) {
             for l in &lead {
